@@ -346,6 +346,20 @@ theorem kv_list_eq_map_Labels (m : List (Str × Val))
   obtain ⟨k, e⟩ := p
   cases e <;> simp [mapEntry, entryValue, labelValue, sprint_str]
 
+/-- `extra_hosts`: the list form `["host=ip1,ip2", …]` and the mapping form `{host: [ip1, ip2], …}` decode to the same
+`HostsList` (or are rejected alike), for distinct `=`-free host names and comma-free addresses -/
+theorem kv_list_eq_map_HostsList (es : List (Str × List Str))
+    (hk : ∀ e ∈ es, ∀ x ∈ e.1, x ≠ '=')
+    (hips : ∀ e ∈ es, e.2 ≠ [] ∧ ∀ ip ∈ e.2, ∀ ch ∈ ip, ch ≠ ',')
+    (hnd : (es.map Prod.fst).Nodup) :
+    decodeHosts (.seq (es.map hostEntry)) = decodeHosts (.map (es.map hostMapEntry)) := by
+  simp [decodeHosts, hostsOfList_entries es [] hk hips hnd (by simp), hostsOfMap_entries]
+
+
+/-- non-vacuity: `["h=1.2.3.4,[::1]"]` and `{h: ["1.2.3.4", "[::1]"]}` both decode to `h ↦ [1.2.3.4, ::1]` -/
+example : decodeHosts (.seq [hostEntry ("h".toList, ["1.2.3.4".toList, "[::1]".toList])])
+    = some (.map [("h", .seq [.str "1.2.3.4", .str "::1"])]) := by rfl
+
 /-- non-vacuity: `["A=1", "B", "C="]` and `{A: 1, B: null, C: ""}` -/
 example : decodeMWE (.seq ([("A".toList, Val.int 1), ("B".toList, .null), ("C".toList, .str "")].map listEntry))
     = some (.map [("A", .str "1"), ("B", .null), ("C", .str "")]) := by rfl
